@@ -219,7 +219,27 @@ class SessionBuilder:
             argv += ["--detectors", ",".join(sub)]
         if self.rng.random() < 0.25:
             argv[1] = "out.json"
+        if self.rng.random() < 0.2 and self.ctx.info.get(cid, {}).get("lines", 999) <= 60:
+            # text mode (one DOT file per reported path): only small contracts, one detector
+            argv = ["detect", "--contracts", "{C}", "--detectors", self.rng.choice(self.ctx.detectors)]
         return self.add({"op": "cli", "c": cid, "argv": argv, "s1": s1})
+
+    def cli_group(self, s1: Any) -> Optional[Dict[str, Any]]:
+        """`tealer detect --group-config cfg.yaml` through main() (prints and exits 1)."""
+        g = make_group(self.rng, self.ctx)
+        if g is None:
+            return None
+        argv = ["detect", "--group-config", "config.yaml", "--detectors", ",".join(g["dets"])]
+        return self.add(
+            {
+                "op": "cli",
+                "c": g["contracts"][0],
+                "argv": argv,
+                "files": [{"name": "config.yaml", "text": g["yaml"]}],
+                "contracts": g["contracts"],
+                "s1": s1,
+            }
+        )
 
     def printer(self, cid: str, s1: Any) -> Dict[str, Any]:
         return self.add({"op": "printer", "c": cid, "name": self.rng.choice(self.ctx.printers), "s1": s1})
@@ -265,7 +285,7 @@ def gen_c14_session(seed: int, index: int, ctx: GenCtx, faulty: bool, max_ops: i
     b = SessionBuilder(rng, ctx)
     pool = _pool(rng, ctx, faulty)
     policy = rng.choice(["id", "rev", "rand", "mix", "mix", "rand"])
-    kinds = ["single", "single", "single", "rerun", "cli", "parse", "build", "printer", "regex", "noise", "gc", "drop"]
+    kinds = ["single", "single", "single", "rerun", "cli", "parse", "build", "printer", "regex", "noise", "gc", "drop", "group", "cli_group"]
     enabled = [k for k in kinds if rng.random() < 0.7] or ["single"]
     if "single" not in enabled:
         enabled.append("single")
@@ -299,9 +319,13 @@ def gen_c14_session(seed: int, index: int, ctx: GenCtx, faulty: bool, max_ops: i
             op = b.gc()
         elif kind == "drop":
             op = b.drop()
+        elif kind == "group":
+            op = add_group_op(b, rng, ctx, s1) if rng.random() < 0.4 else None
+        elif kind == "cli_group":
+            op = b.cli_group(s1) if rng.random() < 0.4 else None
         if op is None:
             continue
-        if faulty and op["op"] in ("single", "rerun", "cli", "build", "printer", "regex", "parse") and rng.random() < fault_p:
+        if faulty and op["op"] in ("single", "rerun", "cli", "build", "printer", "regex", "parse", "group") and rng.random() < fault_p:
             ccid = op.get("c") or dict(b.teals).get(op.get("h", ""), "") or cid
             f = make_fault(rng, ctx, ccid, fault_kinds, op["op"])
             if f is not None:
@@ -331,7 +355,7 @@ def gen_c12_session(seed: int, index: int, ctx: GenCtx, faulty: bool, max_ops: i
     policy = rng.choice(["id", "rev", "rand", "mix", "rand"])
     fault_kinds = [k for k in ["exc_call", "exc_call", "exc_line", "recursion"] if rng.random() < 0.7] or ["exc_call"]
     fault_p = rng.choice([0.1, 0.2, 0.3]) if faulty else 0.0
-    side = [k for k in ["single", "rerun", "printer", "noise", "gc", "cli", "reparse", "drop"] if rng.random() < 0.6]
+    side = [k for k in ["single", "rerun", "printer", "noise", "gc", "cli", "reparse", "drop", "cli_group"] if rng.random() < 0.6]
     group_p = 0.08 if ctx.group_cfgs else 0.0
     for cid in pool:
         b.parse(cid)
@@ -363,6 +387,8 @@ def gen_c12_session(seed: int, index: int, ctx: GenCtx, faulty: bool, max_ops: i
                 op = b.cli(cid, s1)
             elif kind == "reparse":
                 op = b.parse(rng.choice(pool))
+            elif kind == "cli_group":
+                op = b.cli_group(s1)
             elif kind == "drop":
                 op = b.drop()
         if op is None:
@@ -416,6 +442,16 @@ def group_yaml(contracts: List[Dict[str, Any]], groups: List[Dict[str, Any]]) ->
 
 
 def add_group_op(b: SessionBuilder, rng: random.Random, ctx: GenCtx, s1: Any) -> Optional[Dict[str, Any]]:
+    op = make_group(rng, ctx)
+    if op is None:
+        return None
+    op["s1"] = s1
+    if rng.random() < 0.4:
+        op["h"] = b.handle("G")
+    return b.add(op)
+
+
+def make_group(rng: random.Random, ctx: GenCtx) -> Optional[Dict[str, Any]]:
     """`group`: init_tealer_from_config on a small config whose per-contract function lists are
     permuted, thinned or duplicated under fresh names by the session PRNG.  The canonical form
     (functions sorted by path, canonical names) keys the reference for detector outputs; each
@@ -467,8 +503,5 @@ def add_group_op(b: SessionBuilder, rng: random.Random, ctx: GenCtx, s1: Any) ->
         "paths": pmap,
         "cmap": {c["name"]: c["cid"] for c in contracts},
         "dets": dets,
-        "s1": s1,
     }
-    if rng.random() < 0.4:
-        op["h"] = b.handle("G")
-    return b.add(op)
+    return op
